@@ -469,10 +469,14 @@ def sortStatement (S : Schema) (f : Field) : Option String :=
     | _ => none
   | _ => none
 
+/-- the `sort` statement of a member, under the member's condition -/
+def sortFieldLines (S : Schema) (d : StructDef) (f : Field) : List String :=
+  match sortStatement S f with
+  | some s => guarded (conditionLine S d f) s
+  | none => []
+
 def sortBody (S : Schema) (d : StructDef) : List String :=
-  let lines := d.fields.flatMap fun f => match sortStatement S f with
-    | some s => guarded (conditionLine S d f) s
-    | none => []
+  let lines := d.fields.flatMap (sortFieldLines S d)
   if lines.isEmpty then ["pass"] else lines
 
 def rstripUnderscores (s : String) : String := String.ofList (s.toList.reverse.dropWhile (· == '_')).reverse
